@@ -30,7 +30,7 @@ def sync():
 def run_checks(props, tier="quick"):
     res = {}
     for p in props:
-        rc, out = sh(f"./check {p} {tier}", cwd=f"{ROOT}/verif")
+        rc, out = sh(f"VERIF_REPO={ROOT}/repo ./check {p} {tier}", cwd=f"{ROOT}/verif")
         viol = [l for l in out.splitlines() if l.startswith("VIOLATION")]
         res[p] = (rc, viol, out.splitlines()[-1] if out.splitlines() else "")
     return res
